@@ -7,6 +7,16 @@ ALL = ["C%02d" % i for i in range(1, 20)]
 
 # id -> (category, technique, level text, level note, design ref)
 CHECKS = {
+    "C14": ("exploration",
+            "bounded exhaustive enumeration of strings, token sequences, edited sentences and byte files in crash-isolated workers",
+            "Every string up to the C09 bounds, every token sequence up to length 4/5 over all 29 token symbols and 5/6 over a 21-symbol class alphabet (including streams tokenize itself never emits), and every grammar.y sentence up to 5/7 tokens with every single-token deletion, substitution and insertion is pushed through the real tokenize and parse in worker processes with the same 16 MiB stack as the shipped binary; a panic is caught and reported with its message, an abort or watchdog expiry is attributed to the case in flight. The real `gram check` binary is launched on every byte string of length <= 1, byte pairs, invalid-UTF-8 mutations of the examples, an empty / missing file and a directory, and must honour the exit-code / stdout / stderr contract and agree with the in-process pipeline.",
+            "Trusted: the worker supervision (signal handler dumps the case in flight; driver restarts). Type checking of arbitrary input is covered by C01/C03/C05 where the reference checker classifies abnormal endings; here only the always-terminating stages are driven in-process, and all of `gram check` at process level.",
+            "DESIGN.md 6/C14"),
+    "C17": ("exploration",
+            "systematic enumeration of input families on a ladder of sizes with a deterministic work counter",
+            "All 484 input families of period 1 and 2 over 22 syntactic wrappers, each in 8 variants (well formed, truncated four ways, wrong token planted at three places), are run through the real tokenize+parse at n = 1, 2, 4, ... 1024 (quick) / 8192 (thorough) nested repetitions on a 2 GiB stack; the work measure is the number of heap allocations (deterministic), backed by a wall-clock cap per rung. A finite ladder gives evidence of the growth law, not a proof for all n; exponential or super-quadratic behaviour shows up within the first rungs.",
+            "Trusted: heap allocations as a proxy for parser work; thresholds (40 T^2 + 2e5 absolute, factor 6 per doubling for well-formed input) are 20x / 3x above the values measured on the unchanged tree.",
+            "DESIGN.md 6/C17"),
     "C07": ("exploration",
             "bounded exhaustive enumeration of token sequences and grammar.y derivation trees against a grammar-derived oracle",
             "Every token sequence up to length 5 (quick) / 6 (thorough) over all 28 token kinds plus the line-break terminator is parsed by the real parser and its acceptance compared with membership in the set of sentences enumerated from /repo/grammar.y (read at run time); enumeration also certifies that no sentence has two derivations. Every derivation tree up to 6-7 tokens (full alphabet), 8-9 tokens (class alphabet) and 11-13 tokens (seven sub-grammar slices: application chains, sums, products, mixed arithmetic, let groups, binder forms, if-let) is parsed and the result compared node for node with the tree the derivation specifies (left-folded chains, parentheses honoured). Exhaustive within those bounds.",
